@@ -34,6 +34,7 @@ import (
 	"github.com/btcsuite/btcd/chaincfg/chainhash"
 	"github.com/btcsuite/btcd/wire"
 	"github.com/btcsuite/btcwallet/waddrmgr"
+	"github.com/btcsuite/btcwallet/wallet"
 	"github.com/btcsuite/btcwallet/walletdb"
 	_ "github.com/btcsuite/btcwallet/walletdb/bdb"
 	"github.com/btcsuite/btcwallet/walletdb/migration"
@@ -627,6 +628,55 @@ func (c *ctx) runReal(idx int, cs *Case, report reporter) (nchecks int, fatal er
 	}
 	if err := checkOpen("before", cs.Exp.OpenBefore, pre); err != nil {
 		return nchecks, err
+	}
+
+	// 2b. the same database through the real wallet.Open (which must run both upgrades in ONE
+	// transaction): on a copy of the file, so that step 3 still sees the prepared state
+	if n == 2 {
+		cp := filepath.Join(dir, "copy.db")
+		f, err := os.Create(cp)
+		if err != nil {
+			return nchecks, err
+		}
+		err = db.Copy(f)
+		f.Close()
+		if err != nil {
+			return nchecks, err
+		}
+		db2, err := walletdb.Open("bdb", cp, true, 10*time.Second, false)
+		if err != nil {
+			return nchecks, err
+		}
+		var oerr error
+		func() {
+			defer func() {
+				if p := recover(); p != nil {
+					oerr = fmt.Errorf("panic: %v", p)
+				}
+			}()
+			var w *wallet.Wallet
+			w, oerr = wallet.Open(db2, pubPass, nil, params, 0)
+			if w != nil && oerr == nil {
+				w.Manager.Close()
+			}
+		}()
+		post2, derr := dumpAll(db2, names)
+		db2.Close()
+		os.Remove(cp)
+		if derr != nil {
+			return nchecks, derr
+		}
+		nchecks++
+		wantErr := cs.Exp.Err != "none"
+		if (oerr != nil) != wantErr {
+			report("walletopen", "wallet.Open on the prepared database", fmt.Sprint(oerr), cs.Exp.Err)
+		}
+		if wantErr {
+			nchecks++
+			if post2 != pre {
+				report("data", "wallet.Open refused / failed but the database was modified", post2, pre)
+			}
+		}
 	}
 
 	// 3. the upgrade, all managers in one transaction (wallet.OpenWithRetry)
